@@ -1,6 +1,8 @@
 ------------------------------ MODULE MCMetrics ------------------------------
 EXTENDS Metrics, Json
 MCProtos == {"HTTP1", "HTTP2"}
+TcpOnly == {"tcp"}
+IcmpOnly == {"icmp"}
 \* one line per maximal-length history (and per history that returned to the idle state)
 Idle == \A s \in Sess : sproto[s] = "none"
 EmitHistory == (Len(hist) = MaxLen \/ (Idle /\ Len(hist) >= 3)) => PrintT(<< "HIST", ToJson(hist) >>)
